@@ -39,18 +39,19 @@ import (
 )
 
 type Config struct {
-	ModuleDir    string            `json:"module_dir"`    // relative to the repo root
-	Packages     []string          `json:"packages"`      // analysed packages (import paths)
-	Entry        map[string]string `json:"entry"`         // "pkg.Func" or "pkg.(T).Method" glob -> role
-	MultiRoles   []string          `json:"multi_roles"`   // roles that may run in several goroutines at once
-	IgnoreTypes  []string          `json:"ignore_types"`  // struct types that are never shared (per-transaction values)
-	IgnoreFields []string          `json:"ignore_fields"` // fields written once before publication etc. (with reason in the config)
-	Reasons      map[string]string `json:"reasons"`
-	LockAliases  map[string]string `json:"lock_aliases"`         // lock id -> canonical lock id
-	SingleWriter map[string]string `json:"single_writer_fields"` // field -> the only function allowed to write it (see reasons)
-	Extra        []string          `json:"extra_packages"`       // analysed for the atomic-step report only (no facts emitted)
-	AtomicSteps  map[string]string `json:"atomic_steps"`         // function id -> lock id: bodies the models treat as ONE atomic step
-	Anchored     []string          `json:"anchored_files"`
+	ModuleDir          string            `json:"module_dir"`    // relative to the repo root
+	Packages           []string          `json:"packages"`      // analysed packages (import paths)
+	Entry              map[string]string `json:"entry"`         // "pkg.Func" or "pkg.(T).Method" glob -> role
+	MultiRoles         []string          `json:"multi_roles"`   // roles that may run in several goroutines at once
+	IgnoreTypes        []string          `json:"ignore_types"`  // struct types that are never shared (per-transaction values)
+	IgnoreFields       []string          `json:"ignore_fields"` // fields written once before publication etc. (with reason in the config)
+	Reasons            map[string]string `json:"reasons"`
+	LockAliases        map[string]string `json:"lock_aliases"`          // lock id -> canonical lock id
+	SingleWriter       map[string]string `json:"single_writer_fields"`  // field -> the only function allowed to write it (see reasons)
+	Extra              []string          `json:"extra_packages"`        // analysed for the atomic-step report only (no facts emitted)
+	GetOrCreateClaimed []string          `json:"get_or_create_claimed"` // "func:field" keys that the get-or-create discovery must find (getorcreate.go)
+	AtomicSteps        map[string]string `json:"atomic_steps"`          // function id -> lock id: bodies the models treat as ONE atomic step
+	Anchored           []string          `json:"anchored_files"`
 	// functions with NO production caller anywhere in the module (checked by reading, reason in the
 	// config): their accesses are dropped. Every OTHER function that no entry point reaches gets
 	// DefaultRole (a function value / a package outside the list may call it from a transaction).
@@ -89,6 +90,12 @@ type Access struct {
 	Recv   bool     `json:"via_receiver,omitempty"` // the access goes through the method's own receiver
 	pos    token.Pos
 	node   *fnode
+	// get-or-create analysis (getorcreate.go): the access reaches the ELEMENTS of a map field
+	// (x.f[k], len(x.f), range x.f); it is the target of `x.f[k] = v`; which critical section of
+	// every lock (acquisition count of the lock in this body, in source order) it is written in
+	mapElem  bool
+	mapStore bool
+	epochs   map[string]int
 }
 
 type fnode struct {
@@ -339,6 +346,7 @@ func main() {
 	}
 	scanTxctxReaders(filepath.Join(*repo, cfg.ModuleDir))
 	atomicReport = checkAtomicSteps(all)
+	gocReport, gocSites = checkGetOrCreate(all)
 	writeOutputs(all, *outV, *outJ, *repo)
 }
 
@@ -709,12 +717,14 @@ type walker struct {
 	noCopy map[ast.Expr]bool // expressions used as a place (base of a selector, &x, assignment target), not copied
 	elem   map[ast.Expr]bool // x.f used to reach the ELEMENTS of a map / slice (x.f[k], range x.f, len(x.f), delete(x.f, k))
 	held   map[string]int    // lock id -> depth (defer keeps it forever)
+	epoch  map[string]int    // lock id (without #R) -> number of acquisitions written so far in this body
+	mstore map[ast.Expr]bool // x.f of an assignment `x.f[k] = v` on a map field
 	write  map[ast.Expr]bool
 	atom   map[ast.Expr]bool
 }
 
 func analyse(n *fnode) {
-	w := &walker{n: n, info: n.pkg.TypesInfo, loop: n.loop0, held: map[string]int{}, write: map[ast.Expr]bool{}, atom: map[ast.Expr]bool{}, noCopy: map[ast.Expr]bool{}, elem: map[ast.Expr]bool{}}
+	w := &walker{n: n, info: n.pkg.TypesInfo, loop: n.loop0, held: map[string]int{}, epoch: map[string]int{}, mstore: map[ast.Expr]bool{}, write: map[ast.Expr]bool{}, atom: map[ast.Expr]bool{}, noCopy: map[ast.Expr]bool{}, elem: map[ast.Expr]bool{}}
 	n.locksAt = map[*Access][]string{}
 	n.own = computeOwnership(n)
 	n.recvFresh = receiverFreshFields(n)
@@ -773,6 +783,9 @@ func (w *walker) stmt(s ast.Stmt) {
 		for _, l := range x.Lhs {
 			if sel := baseSel(l); sel != nil {
 				w.markWrite(sel)
+			}
+			if ix, ok := ast.Unparen(l).(*ast.IndexExpr); ok {
+				w.mstore[ast.Unparen(ix.X)] = true // x.f[k] = v, pkgVar[k] = v (getorcreate.go)
 			}
 			if rp := rootPlace(w.info, l); rp != nil {
 				w.write[rp] = true
@@ -1050,6 +1063,14 @@ func (w *walker) expr(e ast.Expr) {
 				File: pos.Filename, Line: pos.Line, Recv: viaRecv, pos: x.Pos(), node: w.n}
 			w.n.accesses = append(w.n.accesses, a)
 			w.n.locksAt[a] = w.heldList()
+			if tv, ok := w.info.Types[x]; ok && w.elem[x] {
+				if _, isMap := tv.Type.Underlying().(*types.Map); isMap {
+					a.mapElem, a.mapStore, a.epochs = true, w.mstore[x], map[string]int{}
+					for l, e := range w.epoch {
+						a.epochs[l] = e
+					}
+				}
+			}
 		}
 	case *ast.UnaryExpr:
 		if x.Op == token.AND {
@@ -1122,6 +1143,12 @@ func (w *walker) pkgVar(e ast.Expr) {
 	a := &Access{Field: id, Write: w.write[e], Atomic: w.atom[e], Func: w.n.id, File: pos.Filename, Line: pos.Line, pos: e.Pos(), node: w.n}
 	w.n.accesses = append(w.n.accesses, a)
 	w.n.locksAt[a] = w.heldList()
+	if _, isMap := v.Type().Underlying().(*types.Map); isMap {
+		a.mapElem, a.mapStore, a.epochs = true, w.mstore[e], map[string]int{}
+		for l, ep := range w.epoch {
+			a.epochs[l] = ep
+		}
+	}
 	w.n.pkgVars = append(w.n.pkgVars, id) // (breaks receiver-confinement only if somebody writes the variable: computeRecvConfined)
 }
 
@@ -1279,12 +1306,14 @@ func (w *walker) call(c *ast.CallExpr, isDefer, isGo bool) {
 			case "Lock":
 				if !isDefer {
 					w.held[id]++
+					w.epoch[id]++
 					w.n.acquires = append(w.n.acquires, id)
 				}
 				return
 			case "RLock":
 				if !isDefer {
 					w.held[id+"#R"]++
+					w.epoch[id]++
 					w.n.acquires = append(w.n.acquires, id+"#R")
 				}
 				return
@@ -2379,6 +2408,21 @@ func writeOutputs(all []Access, outV, outJ, repo string) {
 		fmt.Fprintf(&sb, "  (%s, %s)%s\n", coqStr(k), coqStr(atomicReport[k]), sep)
 	}
 	sb.WriteString("].\n\n")
+	sb.WriteString("(* get-or-create sites (lockset/getorcreate.go): bodies that look a key up in a lock-protected map field and\n   store into it; \"\" = look-up and store sit inside one continuous hold of the lock *)\n")
+	sb.WriteString("Definition get_or_create_report : list (string * string) := [\n")
+	gfn := make([]string, 0, len(gocReport))
+	for k := range gocReport {
+		gfn = append(gfn, k)
+	}
+	sort.Strings(gfn)
+	for i, k := range gfn {
+		sep := ";"
+		if i == len(gfn)-1 {
+			sep = ""
+		}
+		fmt.Fprintf(&sb, "  (%s, %s)%s\n", coqStr(k), coqStr(gocReport[k]), sep)
+	}
+	sb.WriteString("].\n\n")
 	sb.WriteString("(* production functions (analysed packages) that read the per-flow transactional context *)\n")
 	sb.WriteString("Definition txctx_readers : list string := " + coqList(keys(txctxReaders)) + ".\n\n")
 	sb.WriteString("Definition accesses : list fact := [\n")
@@ -2417,7 +2461,7 @@ func writeOutputs(all []Access, outV, outJ, repo string) {
 	}
 	must(os.MkdirAll(filepath.Dir(outJ), 0o755))
 	js, _ := json.MarshalIndent(map[string]any{"sites": kept, "facts": len(order), "access_sites": sites,
-		"functions": len(nodes), "multi_roles": multiRoles, "multi_why": multiWhy, "defaulted_functions": defaultedList(), "owned_dropped": ownedDroppedList(), "fresh_constructors": freshList(), "publication_order_violations": pubOrder, "consumer_roles": cfg.ConsumerRoles, "generation_fields": genFields, "owned_types_withdrawn": ownedWithdrawn, "owned_receiver_methods": ownedRecvList(), "owned_call_sites_skipped": ownedSkipped, "dead_functions": deadList(), "dropped_fields": ignF, "once_initialised": keys(onceInit), "nested_owned_call_sites": nestedOwned, "package_variables": pkgVarList(all), "aliases": aliasReport(), "atomic_report": atomicReport}, "", " ")
+		"functions": len(nodes), "multi_roles": multiRoles, "multi_why": multiWhy, "defaulted_functions": defaultedList(), "owned_dropped": ownedDroppedList(), "fresh_constructors": freshList(), "publication_order_violations": pubOrder, "consumer_roles": cfg.ConsumerRoles, "generation_fields": genFields, "owned_types_withdrawn": ownedWithdrawn, "owned_receiver_methods": ownedRecvList(), "owned_call_sites_skipped": ownedSkipped, "dead_functions": deadList(), "dropped_fields": ignF, "once_initialised": keys(onceInit), "nested_owned_call_sites": nestedOwned, "package_variables": pkgVarList(all), "aliases": aliasReport(), "atomic_report": atomicReport, "get_or_create_report": gocReport, "get_or_create_sites": gocSites}, "", " ")
 	must(os.WriteFile(outJ, js, 0o644))
 	fmt.Printf("lockset: %d functions, %d access sites of shared fields, %d distinct facts\n", len(nodes), sites, len(order))
 }
